@@ -87,6 +87,18 @@ SyntaxVisitor::Action TypedefNameTypeResolver::visitIdentifierDeclarator(
 
 const Type* TypedefNameTypeResolver::resolve(const Type* ty)
 {
+    // Types are rewritten in place and the type of the specifiers is shared by
+    // the declarators of a declaration: a type that is entered again while it is
+    // being resolved (in incomplete code) would come to refer to itself.
+    if (!tysUnderResolution_.insert(ty).second)
+        return semaModel_->compilation()->canonicalErrorType();
+    auto resolvedTy = resolve_CORE(ty);
+    tysUnderResolution_.erase(ty);
+    return resolvedTy;
+}
+
+const Type* TypedefNameTypeResolver::resolve_CORE(const Type* ty)
+{
     switch (ty->kind()) {
         case TypeKind::Basic:
         case TypeKind::Void:
